@@ -8,7 +8,7 @@ CONSTANTS
   Hists <- AllHists
   BackoffCfgs <- NoBoCfgs
   Attempts <- BoAttempts
-INVARIANT TypeOK Returned NoLateContact
+INVARIANT TypeOK Returned NoLateContact NoEmptySuccess
 PROPERTIES P_C17 P_C18
 CONSTRAINT EmitCase
 CHECK_DEADLOCK FALSE
